@@ -23,6 +23,7 @@ def run(ctx, res):
     r2.rule_bit_use(S, res, {"online"}, cs)
     r2.rule_presence(S, res, {"online"}, cs)
     r2.rule_unconditional(S, res, {"online"}, cs)
+    r2.rule_per_element(S, res, {"online"}, cs)
     r2.rule_verified(S, res, {"online"}, labs)
     rule_decrypt_result(S, res)
 
